@@ -440,6 +440,68 @@ func runC04(c *ctx) {
 			c04Eval(c, c04Case{Dir: "print-parse", Msg: m})
 		}
 	}
+	// round 10: messages that SHARE an item object (one list built once, put into two parents by the factory or filled
+	// into a list variable of two parsed templates): each message still prints what it lists, and its printed form
+	// parses back to it - checked for both only after both exist
+	{
+		check := func(m *ast.DataMessage, what string) {
+			c.NoteBulk(1, 1)
+			ms := real.Snap(m)
+			again, errs, warns, o := smlParse(ms.Str)
+			cs := c04Case{Dir: "shared-item", Text: ms.Str}
+			if o.Panicked || len(errs) > 0 || len(warns) > 0 || len(again) != 1 {
+				c.Violation("C04/printed-form-not-accepted/shared-item", fmt.Sprintf("%s: printed form %q: messages=%d errors=%q warnings=%q (%s)", what, clipS(ms.Str), len(again), errs, warns, o), cs)
+				return
+			}
+			ps := real.Snap(again[0])
+			if ps.Str != ms.Str || ps.Header != ms.Header || !real.EqStrs(ref.NormEllipsis(ms.Vars), ref.NormEllipsis(ps.Vars)) {
+				c.Violation("C04/reparsed-differs/shared-item", fmt.Sprintf("%s: the message lists %q and prints %q; its printed form parses to a message that lists %q and prints %q", what, ms.Vars, clipS(ms.Str), ps.Vars, clipS(ps.Str)), cs)
+			}
+		}
+		for nsub := 1; nsub <= 9; nsub++ {
+			for form := 0; form < 3; form++ {
+				var args []interface{}
+				var one []interface{}
+				for i := 0; i < nsub; i++ {
+					n := fmt.Sprintf("c%d_%d", nsub, i)
+					one = append(one, n)
+					switch (i + form) % 3 {
+					case 0:
+						args = append(args, ast.NewUintNode(1, n))
+					case 1:
+						args = append(args, n)
+					default:
+						args = append(args, ast.NewListNode(ast.NewBooleanNode(n)))
+					}
+				}
+				if form == 2 {
+					args = []interface{}{ast.NewIntNode(4, one...)}
+				}
+				o := real.Try(func() {
+					sub := ast.NewListNode(args...)
+					m1 := ast.NewDataMessage("first", 1, 1, 1, "H->E", ast.NewListNode(sub, ast.NewUintNode(1, "p1a"), "p1b"))
+					check(m1, "first parent alone")
+					m2 := ast.NewDataMessage("second", 1, 3, 1, "H->E", ast.NewListNode(sub, ast.NewIntNode(2, "q1"), "q2", ast.NewBinaryNode("q3")))
+					check(m2, "second parent around the same list")
+					check(m1, "first parent after the second was built")
+					t1, _, _, _ := smlParse("S2F1 W H->E t1\n<L slot <U1 ta> <A tb>> .")
+					t2, _, _, _ := smlParse("S2F3 W H<-E t2\n<L slot <F4 ua ub> <L <B uc>> ud> .")
+					if len(t1) == 1 && len(t2) == 1 {
+						f1 := t1[0].FillVariables(map[string]interface{}{"slot": sub})
+						check(f1, "first template filled with the list")
+						f2 := t2[0].FillVariables(map[string]interface{}{"slot": sub})
+						check(f2, "second template filled with the same list")
+						check(f1, "first filled template after the second")
+						check(m1, "first parent at the end")
+					}
+				})
+				c.Class("messages-sharing-an-item-object")
+				if o.Panicked {
+					c.Violation("C04/shared-item/refused", o.String(), c04Case{Dir: "shared-item"})
+				}
+			}
+		}
+	}
 	// converse: accepted texts with varied literal forms and layouts
 	c.parallel(c.pick(20000, 500000), func(i int, r *rng.R) {
 		g := gen.New(r, expressibleProfile(r, i))
@@ -462,7 +524,7 @@ func runC04(c *ctx) {
 		txt := smltext.Render(toks, lead, gaps, smltext.CaseSpelling(r, toks)).Text
 		c04Eval(c, c04Case{Dir: "fixed-point", Text: txt})
 	})
-	c.Required = []string{"print-parse/ascii=plain", "print-parse/ascii=+quote", "print-parse/ascii=+backslash", "print-parse/ascii=+control", "fixed-point/accepted-text", "every-ascii-character", "deep-nesting", "print-parse/ellipses-numbered-in-order", "ellipsis-before-a-list-with-ellipsis", "same-float-text-under-both-widths"}
+	c.Required = []string{"messages-sharing-an-item-object", "print-parse/ascii=plain", "print-parse/ascii=+quote", "print-parse/ascii=+backslash", "print-parse/ascii=+control", "fixed-point/accepted-text", "every-ascii-character", "deep-nesting", "print-parse/ellipses-numbered-in-order", "ellipsis-before-a-list-with-ellipsis", "same-float-text-under-both-widths"}
 }
 
 func replayC04(c *ctx, raw json.RawMessage) {
